@@ -419,7 +419,8 @@ def r3(ctx, r):
                 others.append((f, e))
     r.instance()
     r.expect(not others, others[0][0] if others else h, others[0][1] if others else None, "second buffer append", "SessionInfo::buffer is appended to outside the capped site", okdesc="one append site")
-    hdrb = [b for b in h.blocks.values() if b.cond is not None and common.cmp_parts(b.cond) and "MAX_HEADER_SIZE" in show(b.cond) and key_of(common.cmp_parts(b.cond)[1]) == "headerEnd"]
+    hdrb = [b for b in h.blocks.values() if b.cond is not None and (common.cmp_oriented(b.cond, lambda x: "MAX_HEADER_SIZE" in show(x)) or (None, None))[1] is not None
+            and key_of(common.cmp_oriented(b.cond, lambda x: "MAX_HEADER_SIZE" in show(x))[1]) == "headerEnd"]
     hs = [e for e in h.stmts() if "root" in e.raw and "headerSection" in show(e.node) and "headerEnd" in show(e.node)]
     r.instance()
     r.expect(len(hdrb) == 1 and len(hs) == 1 and dominated_by_edge(h, hs[0], hdrb[0], 1, eh=False), h, None, "header cap", "the header block is parsed without the MAX_HEADER_SIZE test", okdesc="MAX_HEADER_SIZE before header parsing")
@@ -432,12 +433,15 @@ def r3(ctx, r):
     # client
     ex = fn(ctx, HC, "executeRequest", HCF)
     app = [e for e in ex.stmts() if e.node.get("k") == "mcall" and last(e.node.get("callee", "")) == "append" and key_of(e.node.get("obj")) == "responseData"]
-    capb = [b for b in ex.blocks.values() if b.cond is not None and common.cmp_parts(b.cond) and key_of(common.cmp_parts(b.cond)[2]) == "effectiveCap" and "responseData.size()" in show(common.cmp_parts(b.cond)[1])]
+    def cap_test(b):
+        co = common.cmp_oriented(b.cond, lambda x: key_of(x) == "effectiveCap") if b.cond is not None else None
+        return co if co and "responseData.size()" in show(co[1]) else None
+    capb = [b for b in ex.blocks.values() if cap_test(b)]
     fr = [e for e in ex.stmts() if e.node.get("k") == "mcall" and last(e.node.get("callee", "")) == "frameResponse"]
     r.instance()
     ok = len(app) == 1 and len(capb) == 1 and len(fr) == 1
     if ok:
-        ok = common.cmp_parts(capb[0].cond)[0] in (">", ">=") and dominated_by_edge(ex, fr[0], capb[0], 1, eh=False) and search(ex, app[0], lambda x: x is app[0], stop=lambda x: x.block is capb[0], eh=False) is None \
+        ok = cap_test(capb[0])[0] in (">", ">=") and dominated_by_edge(ex, fr[0], capb[0], 1, eh=False) and search(ex, app[0], lambda x: x is app[0], stop=lambda x: x.block is capb[0], eh=False) is None \
             and any(e.kind == "stmt" and e.node.get("k") == "throw" for e in _reach_until_ret(ex, capb[0].succs[0]))
     r.expect(ok, ex, app[0] if app else None, "client response cap", "the client appends received bytes and frames / receives again without testing the accumulated size against effectiveCap", okdesc="client: cap tested after every append, before framing")
     others = [e for e in ex.stmts() if e not in app and ((e.node.get("k") == "mcall" and last(e.node.get("callee", "")) in ("append", "push_back", "insert") and key_of(e.node.get("obj")) == "responseData") or
